@@ -294,7 +294,10 @@ func (StdEng) prepReduce(a Tensor, axis int, opts ...FuncOpt) (at, reuse DenseTe
 			err = errors.Errorf(shapeMismatch, reuse.Shape(), newShape)
 			return
 		}
-		reuse.Reshape(newShape...)
+		if err = reuse.Reshape(newShape...); err != nil {
+			err = errors.Wrapf(err, "StdEng.Reduce: cannot reshape the reuse tensor")
+			return
+		}
 	case safe && reuse == nil:
 		reuse = New(Of(a.Dtype()), WithShape(newShape...))
 	}
